@@ -320,7 +320,10 @@ def unser_cases(ci):
     for wc in (True, False):
         for th in (True, False):
             for init in ("$ABSENT", enc({"a": 1} if ci.kind == "dict" else [1, 2])):
-                vals = [("bigint", big, None)]
+                # "hard_text": strings a careless encoder cannot write (lone surrogates, e.g. from
+                # os.fsdecode of undecodable bytes) - accepted today; if ever rejected at write time,
+                # then without damage
+                vals = [("bigint", big, None), ("hard_text", None, None)]
                 if ci.name in ("JSONDict", "JSONList"):
                     vals += [("object", "OBJECT", "nv"), ("decimal", "DECIMAL", "nv"),
                              ("nested_object", "NESTED", "nv")]
@@ -334,7 +337,8 @@ def unser_cases(ci):
 
 def _unser_value(name):
     return {"bigint": 10 ** 5000, "object": object(), "decimal": decimal.Decimal("1.5"),
-            "nested_object": {"a": [1, {"b": object()}]}}[name]
+            "nested_object": {"a": [1, {"b": object()}]},
+            "hard_text": ["caf\udce9", {"k\udc80": "\ud800x"}]}[name]
 
 
 def run_unser(sc, base):
@@ -374,6 +378,16 @@ def run_unser(sc, base):
     if meas is None or rc != 0:
         raise HarnessError("unser child failed")
     if meas["error"] is None:
+        if sc["value"] == "hard_text":
+            # accepted: then the file must be complete, valid JSON that a fresh object can open
+            after = _snapshot(d, 1)[0]
+            try:
+                json.loads(after)
+                reset_class_state()
+                CLASSES[sc["class"]].cls(filename=p)()
+            except Exception as e:  # noqa: BLE001
+                return {"what": "file_invalid_after_accepted_value", "scenario": sc, "error": str(e)[:120]}
+            return None
         return {"what": "unserializable_value_accepted", "scenario": sc}
     after = _snapshot(d, 1)[0]
     if after != before:
